@@ -22,7 +22,7 @@ def run(ctx):
     ctx.exhaustive["FamC10"] = True
     if ctx.tier == "quick":
         fam.sort(key=lambda c: c["id"])
-        keep = [c for i, c in enumerate(fam) if i % 3 == 0 or "/base/" in c["id"] or "/case/" in c["id"] or "/rotate/" in c["id"] or "/fn-" in c["id"] or "/compose/" in c["id"] or "/fnshape/" in c["id"] or "/shape2/" in c["id"] or ("/shape/" in c["id"] and i % 2 == 0)]
+        keep = [c for i, c in enumerate(fam) if i % 3 == 0 or "/base/" in c["id"] or "/case/" in c["id"] or "/rotate/" in c["id"] or "/fn-" in c["id"] or "/compose/" in c["id"] or "/fnshape/" in c["id"] or "/shape2/" in c["id"] or ("/shape/" in c["id"] and i % 2 == 0) or "/writeonly/" in c["id"] or "/samelocal/" in c["id"]]
         ctx.exhaustive["FamC10"] = False
         fam = keep
     res = progflow.validate(ctx, fam, "fam")
@@ -61,4 +61,5 @@ def run(ctx):
         if batflow.judge(ctx, c, v, bat[c["id"]], r, tag="@batch"):
             nbat += 1
             ctx.traces_validated += 1
+    batflow.check_blind(ctx, len(keep))
     return ctx.finish(rule=RULE, assumptions=ASSUME, extra={"batch_runs_compared": nbat, "notes": ctx.notes})
